@@ -5,6 +5,18 @@ HERE = os.path.dirname(os.path.dirname(os.path.abspath(__file__)))
 sys.path.insert(0, HERE)
 
 CHECKS = {
+ 'C11': ('seqmon', 'exploration',
+         'One grammar per class (base Filter and the nine built-ins) renders an abstract configuration both as compact text (comma strings or lists of strings, ; topics, > mappings, ! options, whitespace variation, passwords with !) and as the structured form the class documentation declares equivalent; the real normalize_config is run on both and on its own output (N(N(c))==N(c), N(text)==N(struct), list/tuple distinction significant), and the real parse_topics/parse_options are checked as inverses of the renderers in all mapping modes.',
+         'Equivalences are taken from the class doc-strings; inherently ambiguous passwords and multi-key JSON in comma strings are not generated; REST struct endpoints are Endpoint structures.', '6 C11'),
+ 'C12': ('seqmon', 'exploration',
+         'Command lines are generated from an abstract pipeline (so the intended target of every source is known), parsed by the real parse_filters and judged by an independent resolver: id naming, exactly-one binder per resolved source with suffix intact, {p,p+1} disjointness of auto-allocated ports against everything, pass-through of user-written values, ValueError for deliberately invalid lines.',
+         'Pure function of argv; --sources=/--outputs= with empty value follow the parser\'s documented no-value rule; user ports generated pairwise disjoint.', '6 C12'),
+ 'C14': ('seqmon', 'fault_enumeration',
+         'Histories of writer ops and 2-5 reader incarnations with a head file are run on the real RollLog; every save is crashed at each of its file-system steps (failpoints in open/os.rename with a buffered-file proxy that loses unflushed bytes) or the incarnation is abandoned between operations; each restart must open and everything delivered afterwards is checked against the list model from the last successfully renamed position. A sampled variant kills a real subprocess with os._exit(137) at the same failpoints.',
+         'rename is atomic; a killed process loses only user-space buffers (no power-loss model); C13 assumptions for the log itself.', '6 C14'),
+ 'C15': ('seqmon', 'exploration',
+         'A unique password token is planted in a user:password@ credential at generated positions of the configuration of every built-in filter (sources, outputs, extra URI options; string, comma lists, list, tuple, dict, nested to depth 3, per-source records; 8 schemes; password/user alphabet classes incl. ! : / ? # % and empty user); all log records, emitted frame meta and serialised lineage events of real construction/init/setup/process runs are searched for it, and the host must stay readable in the logged configuration.',
+         'vidgear stubbed, network servers/clients not started, MQ replaced by a socket-less dummy; exception texts for invalid configs are not a sink.', '6 C15'),
  'C09': ('seqmon', 'exploration',
          'The real encoder and decoder are run back to back (with exactly the transformation the transport applies in between) over the complete cross product of image format x memory layout x writability x backing x outputs_jpg x boundary sizes and over seeded random multi-topic frame sets; every field of every decoded frame is compared with the input. Held means no difference on any generated case.',
          'Trusts OpenCV as the JPEG codec (tolerance is relative to an independent encode/decode of the same pixels); data limited to JSON-native values.', '6 C09'),
